@@ -167,6 +167,19 @@ def verify(contract, registry, imports=None, timeout_ms=None, only=None, paralle
     fnode = find_def(*contract.src)
     rep.src_hash = ast_hash(fnode)
     rep.src_lines = (fnode.lineno, fnode.end_lineno)
+    rep.slice_lines, rep.outside_slice = None, None
+    if contract.slice is not None:
+        # mechanical extraction: record exactly which statements are verified and which top-level statements are dropped
+        try:
+            sl = [n for n in contract.slice(fnode) if hasattr(n, "lineno")]
+            rep.slice_lines = sorted({(n.lineno, n.end_lineno) for n in sl})
+            inside = lambda n: any(a <= n.lineno and n.end_lineno <= b for a, b in rep.slice_lines)  # noqa: E731
+            covers = lambda n: any(n.lineno <= a and b <= n.end_lineno for a, b in rep.slice_lines)  # noqa: E731
+            rep.outside_slice = [(n.lineno, n.end_lineno) for n in fnode.body if not inside(n) and not covers(n)
+                                 and not (isinstance(n, ast.Expr) and isinstance(getattr(n, "value", None), ast.Constant))]
+            rep.partly_outside = [(n.lineno, n.end_lineno) for n in fnode.body if covers(n) and not inside(n)]
+        except Exception:
+            pass
     cases = contract.cases or [Case("default", None)]
     canary_hits = {nm: False for nm, _ in contract.canaries}
     for case in cases:
